@@ -79,25 +79,25 @@ type c10rScn struct {
 
 // ---------- error terms ----------
 
-var c10rErrTab = func() map[string]c10ErrCase {
-	m := map[string]c10ErrCase{}
-	for _, e := range c10Errors() {
-		m[e.Term] = e
+// c10rWireTerm: can the term be returned where a reply is awaited? Excluded: terms whose accepted kind includes
+// "ok" although an error was returned (status code 0 as an error asks for a success reply without a value, see the
+// note in checkC10), and *StatusError{EOF}, whose two accepted readings (eof / failure) end composite client
+// operations differently.
+func c10rWireTerm(e c10ErrCase) bool {
+	if e.Err == nil || c10KindHas(e.Kind, "ok") {
+		return false
 	}
-	return m
-}()
+	return !(e.Basis == "dev" && c10KindHas(e.Kind, "eof"))
+}
 
-// c10rTerms lists the error terms handlers return here (F0 = "OK as an error" is excluded: it asks for a
-// success reply without a value, see the note in checkC10).
-func c10rTerms() []string {
+// c10rTerms lists the error terms handlers return here, up to the given level of the product
+// (0: bare and one of P/L/S/W; 1: + custom Unwrap, errors.Join; 2: + two wrappers).
+func c10rTerms(level int) []string {
 	var out []string
-	seen := map[string]bool{}
 	for _, e := range c10Errors() {
-		if e.Term == "F0" || e.Term == "NIL" || seen[e.Term] {
-			continue
+		if e.Level <= level && c10rWireTerm(e) {
+			out = append(out, e.Term)
 		}
-		seen[e.Term] = true
-		out = append(out, e.Term)
 	}
 	return out
 }
@@ -106,10 +106,7 @@ func c10rErr(term string) (error, string) {
 	if term == "" || term == "NIL" {
 		return nil, "ok"
 	}
-	e, ok := c10rErrTab[term]
-	if !ok {
-		panic("c10ret: unknown error term " + term)
-	}
+	e := c10Lookup(term)
 	return e.Err, e.Kind
 }
 
